@@ -365,6 +365,84 @@ fn step_early(dict_ofs: usize) {
     kani::cover!(res.status == Err(MZError::Stream) && fl != 3);
 }
 
+/// The branches of inflate() that return before touching the window, from an arbitrary wrapper state.
+/// `case`: 0 = Full flush (everything else symbolic); 1/2/3 = stream already failed with
+/// Failed / FailedCannotMakeProgress / Adler32Mismatch; 4 = non-Finish request after Finish.
+/// The deciding field is concrete per member so that the decode loop is pruned syntactically.
+fn step_nodict(case: u8) {
+    reset_ghost();
+    let mut st = InflateState::new_boxed(format_from(0));
+    let mut p = st.verif_parts();
+    p.dict_ofs = kani::any();
+    p.dict_avail = kani::any();
+    kani::assume(p.dict_ofs < 32768 && p.dict_avail <= 32768 && p.dict_ofs + p.dict_avail <= 32768);
+    p.first_call = kani::any();
+    p.has_flushed = if case == 4 { true } else { kani::any() };
+    let f: u8 = kani::any();
+    kani::assume(f < 3);
+    p.data_format = format_from(f);
+    p.last_status = match case {
+        1 => TINFLStatus::Failed,
+        2 => TINFLStatus::FailedCannotMakeProgress,
+        3 => TINFLStatus::Adler32Mismatch,
+        4 => TINFLStatus::NeedsMoreInput,
+        _ => {
+            let ls: i8 = kani::any();
+            kani::assume(ls >= -4 && ls <= 2);
+            TINFLStatus::from_i32(ls as i32).unwrap()
+        }
+    };
+    kani::assume(!p.first_call || (p.dict_avail == 0 && !p.has_flushed));
+    st.verif_set_parts(&p);
+    let input: [u8; 2] = kani::any();
+    let mut output = [0u8; 3];
+    let n_in: usize = kani::any();
+    let n_out: usize = kani::any();
+    kani::assume(n_in <= 2 && n_out <= 3);
+    let flush = match case {
+        0 => MZFlush::Full,
+        4 => MZFlush::None,
+        _ => {
+            let fl: u8 = kani::any();
+            kani::assume(fl < 3);
+            flush_from(fl)
+        }
+    };
+    let res = inflate(&mut st, &input[..n_in], &mut output[..n_out], flush);
+    let a = st.verif_parts();
+    assert!(unsafe { CORE_CALLS } == 0);
+    assert!(res.bytes_consumed == 0 && res.bytes_written == 0);
+    match case {
+        0 => {
+            assert!(res.status == Err(MZError::Stream));
+            assert!(a == p);
+        }
+        2 => assert!(res.status == Err(MZError::Buf)),
+        1 | 3 => assert!(res.status == Err(MZError::Data)),
+        _ => assert!(res.status == Err(MZError::Stream)),
+    }
+    // nothing but the first-call marker may change
+    assert!(a.dict_ofs == p.dict_ofs && a.dict_avail == p.dict_avail && a.last_status == p.last_status);
+    assert!(a.has_flushed == p.has_flushed && a.data_format == p.data_format);
+    assert!(output[0] == 0 && output[1] == 0 && output[2] == 0);
+    kani::cover!(n_in == 2 && n_out == 3);
+}
+
+macro_rules! nodict_harness {
+    ($name:ident, $case:expr) => {
+        #[kani::proof]
+        #[kani::unwind(4)]
+        #[kani::stub(mzcore::decompress, decompress_contract)]
+        fn $name() {
+            step_nodict($case)
+        }
+    };
+}
+nodict_harness!(w_inflate_step_full, 0);
+// cases 1..4 (sticky errors, non-Finish after Finish) do not fit: the deciding field lives in the
+// 43 KB heap object and CBMC does not propagate it, so the whole decode loop stays in the formula
+// (resource failure at 16 GB / timeout at 36 GB). They are covered by w_inflate_step_early_* (thorough).
+
 #[kani::proof]
 #[kani::unwind(4)]
 #[kani::stub(mzcore::decompress, decompress_contract)]
